@@ -94,7 +94,9 @@ const FWD: f64 = 1e-9;
 /// z^w against exp(w ln z) with ln from std: worst observed 3e-14 on the unchanged tree; 1e-8 would pass an exponent whose imaginary
 /// part of 1e-9 is ignored
 const POW_TOL: f64 = 1e-11;
-const INV: f64 = 1e-8;
+/// f(f^-1(z)) = z: worst observed 1.2e-12 since the logarithm's argument in asin / acos / asinh is formed without cancellation (fifth
+/// hunt: with 1e-8, calibrated on the crate, asec / acsc / acsch of |z| = 1e-3 lost six digits unnoticed - the worst observed then was 3.3e-10)
+const INV: f64 = 1e-10;
 const RANGE_SLACK: f64 = 1e-12;
 
 fn points(quick: bool) -> Vec<C> {
@@ -366,7 +368,7 @@ fn check_point(p: C, acc: &mut Acc) -> Result<(), String> {
 fn main() {
     let ctx = Ctx::from_args("C14");
     ctx.level("exploration");
-    ctx.rule("E1: rectangular grid re, im in {0, +-1e-9, +-1e-3, +-1/2, +-1, +-(1+-1e-6), +-2, +-3, +-10} with 1e-3 <= |z| <= 10, polar grid r in {1e-3, 0.1, 1-1e-6, 1, 1+1e-6, 2, 10} x 16 (quick) / 32 (thorough) angles, 1e-6 neighbourhoods of +-1 and +-i, i.e. every quadrant, both axes and both sides (imaginary/real part +-1e-9) of every branch cut; each of the 38 public functions at each point. Oracle: own complex arithmetic with exp by scaling-and-squaring Taylor series and sin/cos/sinh/cosh from it (forward functions, relative 1e-9); every inverse pinned by forward_oracle(inverse(z)) = z (1e-8) and its principal range; reciprocals, Pythagorean identities, z^w = exp(w ln z) for 7 exponents, polar round trip, reduction to f64 functions on the real axis. Non-trivial: points within 1e-9 of a cut, within 1e-6 of a branch point, each quadrant.");
+    ctx.rule("E1: rectangular grid re, im in {0, +-1e-9, +-1e-3, +-1/2, +-1, +-(1+-1e-6), +-2, +-3, +-10} with 1e-3 <= |z| <= 10, polar grid r in {1e-3, 0.1, 1-1e-6, 1, 1+1e-6, 2, 10} x 16 (quick) / 32 (thorough) angles, 1e-6 neighbourhoods of +-1 and +-i, i.e. every quadrant, both axes and both sides (imaginary/real part +-1e-9) of every branch cut; each of the 38 public functions at each point. Oracle: own complex arithmetic with exp by scaling-and-squaring Taylor series and sin/cos/sinh/cosh from it (forward functions, relative 1e-9); every inverse pinned by forward_oracle(inverse(z)) = z (1e-10) and its principal range; reciprocals, Pythagorean identities, z^w = exp(w ln z) for 7 exponents, polar round trip, reduction to f64 functions on the real axis. Non-trivial: points within 1e-9 of a cut, within 1e-6 of a branch point, each quadrant.");
     ctx.assume("which side of a cut is continuous is not prescribed; exactly-on-cut points are judged by right inverse + closed principal range only (the value -pi of Im ln / arg at an imaginary part -0.0, outside the stated half-open range, is carried by two listed inputs as a known finding)");
     ctx.assume("poles of tan/sec/csc/cot/tanh/... are avoided when the oracle's denominator is below 1e-6");
     ctx.threshold("forward_exp", FWD);
